@@ -1,7 +1,7 @@
 //! `Expr`, `LogicalPlan` and the `*_with_subqueries` family.
 
 use super::super::{
-    cb, finish_real, from_tnr, judge_opt, maybe_corrupt, pk, reference, Api, Chg, Ctl, Outcome, Policy, EMPTY_TRAILING,
+    cb, finish_real, from_tnr, judge_opt, maybe_corrupt, record_violation, pk, reference, Api, Chg, Ctl, Outcome, Policy, EMPTY_TRAILING,
     RealRes, Rec, Report, Subject, DOWN, UP,
 };
 use super::generic_case;
@@ -1050,6 +1050,6 @@ pub fn subq_case(rep: &Report, rng: &mut Rng, i: u64, pseed: u64) {
             // not documented: not asserted
             judge_opt(rep, api, name, ty, &input, &exp, &got, || Policy::Hash { seed: pseed, class }, !inputs);
         }
-        Err(p) => rep.violation(&format!("panic/{name}/{ty}"), json!({"type": ty, "api": name, "input_tree": input.show(), "policy_seed": pseed, "panic": p, "expected_by_contract": exp.to_json()})),
+        Err(p) => record_violation(rep, &format!("panic/{name}/{ty}"), ty, name, json!({"type": ty, "api": name, "input_tree": input.show(), "policy_seed": pseed, "panic": p, "expected_by_contract": exp.to_json()})),
     }
 }
